@@ -1051,7 +1051,26 @@ func DecodeText(b []byte) []rune {
 	}
 	out := make([]rune, len(b))
 	for i, c := range b {
-		out[i] = rune(c)
+		out[i] = pdfDocRune(c)
 	}
 	return out
+}
+
+// pdfDocHigh: PDFDocEncoding (PDF 32000-1 Annex D.2) for 0x80-0x9F; 0x9F is undefined.
+var pdfDocHigh = [32]rune{0x2022, 0x2020, 0x2021, 0x2026, 0x2014, 0x2013, 0x0192, 0x2044, 0x2039, 0x203A, 0x2212, 0x2030, 0x201E, 0x201C, 0x201D, 0x2018,
+	0x2019, 0x201A, 0x2122, 0xFB01, 0xFB02, 0x0141, 0x0152, 0x0160, 0x0178, 0x017D, 0x0131, 0x0142, 0x0153, 0x0161, 0x017E, 0xFFFD}
+
+// pdfDocRune decodes one byte of a text string without byte order mark. Below 0x80 the byte is taken as
+// the code point (the ASCII-compatible part; 0x18-0x1F are diacritics in PDFDocEncoding — not judged here);
+// 0x80-0xA0 and 0xAD differ from Latin-1.
+func pdfDocRune(c byte) rune {
+	switch {
+	case 0x80 <= c && c <= 0x9F:
+		return pdfDocHigh[c-0x80]
+	case c == 0xA0:
+		return 0x20AC
+	case c == 0xAD:
+		return 0xFFFD
+	}
+	return rune(c)
 }
